@@ -266,6 +266,142 @@ theorem stage2_of_error {d : Desc N} {e : LoadError N}
 end Order
 end Stage2
 
+/-! ## Stage 3: the cycle check -/
+
+theorem conn_rgAll_eq {dg : DG N} {g : Graph N} (hm : DGMatch dg g) : dg.rgAll.conn = (rgOfGraph g).conn := by
+  funext a b
+  show dg.conn a b = decide ((a, b) ∈ g.edges)
+  rw [Bool.eq_iff_iff, hm.conn, decide_eq_true_eq]
+
+theorem acyclic_rgAll_iff {dg : DG N} {g : Graph N} (hm : DGMatch dg g) :
+    dg.rgAll.Acyclic ↔ (rgOfGraph g).Acyclic := by
+  unfold RG.Acyclic RG.Walk
+  rw [conn_rgAll_eq hm]
+
+theorem connIn_rgAll {dg : DG N} (hc : dg.ConnIn) : ConnIn dg.rgAll := by
+  intro a b hab
+  exact (hc a b (DG.conn_iff.1 hab)).2
+
+/-- **stage 3**: the created graph is accepted by the cycle check iff the description graph has no long walk -/
+theorem stage3_iff {dg : DG N} {g : Graph N} (hm : DGMatch dg g) (hwf : g.WF) (hc : dg.ConnIn) :
+    isAcyclic g = true ↔ dg.rgAll.acyclicB = true := by
+  rw [isAcyclic_iff_acyclic hwf, acyclicB_iff _ (connIn_rgAll hc), acyclic_rgAll_iff hm]
+
+/-! ## Stage 4: dead-end removal -/
+
+/-- a rejecting `chk_terminals` stopped at a sink that is an original input port and not an original output port -/
+theorem chkTerminals_error_inv {in0 out0 : List N} {P : Graph N → Prop}
+    (hstep : ∀ g, P g → (∀ u ∈ g.outPorts.filter (fun u => !decide (u ∈ out0)), u ∉ in0) →
+      P (g.removeNodes (g.outPorts.filter (fun u => !decide (u ∈ out0))))) :
+    ∀ (fuel : Nat) (g : Graph N) (e : LoadError N), P g → chkTerminals in0 out0 fuel g = .error e →
+      ∃ g' p, P g' ∧ e = .deadInput p ∧ p ∈ g'.outPorts ∧ p ∉ out0 ∧ p ∈ in0
+  | 0, g, e, _, h => by simp [chkTerminals] at h
+  | fuel + 1, g, e, hP, h => by
+    simp only [chkTerminals] at h
+    split at h
+    · cases h
+    · split at h
+      next p hp =>
+        simp only [Except.error.injEq] at h
+        subst h
+        have hmem := List.mem_of_find?_eq_some hp
+        have hin := List.find?_some hp
+        rw [List.mem_filter] at hmem
+        exact ⟨g, p, hP, rfl, hmem.1, by simpa using hmem.2, by simpa using hin⟩
+      next hnone =>
+        refine chkTerminals_error_inv hstep fuel _ e (hstep g hP ?_) h
+        intro u hu hin
+        have := List.find?_eq_none.1 hnone u hu
+        simp [hin] at this
+
+section Terminals
+variable {g : Graph N}
+
+/-- the step of `chk_terminals` never removes a live unit -/
+theorem live_step (hwf : g.WF) (hac : isAcyclic g = true) (g' : Graph N)
+    (hP : g'.Induced (rmEmpty (cleanStruct g)) ∧ ∀ u, LiveG g u → u ∈ g'.names) :
+    (g'.removeNodes (g'.outPorts.filter (fun u => !decide (u ∈ g.outPorts)))).Induced (rmEmpty (cleanStruct g)) ∧
+      ∀ u, LiveG g u → u ∈ (g'.removeNodes (g'.outPorts.filter (fun u => !decide (u ∈ g.outPorts)))).names := by
+  have hs := rmEmpty_cleanStruct_spec hwf hac
+  obtain ⟨hI', hP⟩ := hP
+  refine ⟨hI'.removeNodes _, fun u hu => Graph.mem_names_removeNodes.2 ⟨hP u hu, fun hdead => ?_⟩⟩
+  obtain ⟨hout, hno⟩ := List.mem_filter.1 hdead
+  simp only [Bool.not_eq_true', decide_eq_false_iff_not] at hno
+  have hsink := (Graph.mem_outPorts.1 hout).2
+  cases hu.2 with
+  | base ho => exact hno ho
+  | @step _ b hk hb =>
+    have hb' : LiveG g b := ⟨by obtain ⟨c, _, hc⟩ := hk.2; exact ⟨c, hc⟩, hb⟩
+    exact hsink b ((hI'.edges (u, b)).2 ⟨(hs.2 u b).2 hk, hP u hu, hP b hb'⟩)
+
+/-- **stage 4, rejecting**: the unit named by `DeadInputError` is an original input port that keeps a capability and
+is not live -/
+theorem chkTerminals_error_culprit (hwf : g.WF) (hac : isAcyclic g = true) {fuel : Nat} {e : LoadError N}
+    (h : chkTerminals g.inPorts g.outPorts fuel (rmEmpty (cleanStruct g)) = .error e) :
+    ∃ p, e = .deadInput p ∧ p ∈ g.inPorts ∧ (∃ c, FeedsG g c p) ∧ ¬ LiveG g p := by
+  have hs := rmEmpty_cleanStruct_spec hwf hac
+  have hwf1 : (rmEmpty (cleanStruct g)).WF := hwf.cleanStruct.rmEmpty
+  obtain ⟨g', p, ⟨hI', hP⟩, he, hout, hno, hin⟩ := chkTerminals_error_inv
+    (P := fun g' => g'.Induced (rmEmpty (cleanStruct g)) ∧ ∀ u, LiveG g u → u ∈ g'.names)
+    (fun g' hP _ => live_step hwf hac g' hP) fuel _ e
+    ⟨Graph.Induced.refl hwf1, fun u hu => (hs.1 u).2 hu.1⟩ h
+  refine ⟨p, he, hin, ?_, ?_⟩
+  · exact (hs.1 p).1 (hI'.names_sublist.subset (Graph.mem_outPorts.1 hout).1)
+  · intro hlive
+    have hsink := (Graph.mem_outPorts.1 hout).2
+    cases hlive.2 with
+    | base ho => exact hno ho
+    | @step _ b hk hb =>
+      have hb' : LiveG g b := ⟨by obtain ⟨c, _, hc⟩ := hk.2; exact ⟨c, hc⟩, hb⟩
+      exact hsink b ((hI'.edges (p, b)).2 ⟨(hs.2 p b).2 hk, hP p hlive, hP b hb'⟩)
+
+/-- **stage 4, accepting**: every original input port that keeps a capability is still there -/
+theorem chkTerminals_ok_inputs_kept {fuel : Nat} {g1 g2 : Graph N}
+    (h : chkTerminals g.inPorts g.outPorts fuel g1 = .ok g2) : ∀ p ∈ g.inPorts, p ∈ g1.names → p ∈ g2.names := by
+  refine chkTerminals_ok_inv (P := fun g' => ∀ p ∈ g.inPorts, p ∈ g1.names → p ∈ g'.names) ?_ fuel g1 g2
+    (fun p _ hp => hp) h
+  intro g' hP hno p hp hp1
+  rw [Graph.mem_names_removeNodes]
+  exact ⟨hP p hp hp1, fun hd => hno p hd hp⟩
+
+end Terminals
+
+/-! ## The Bool tables of the description against the working graph -/
+
+section Tables
+variable {dg : DG N} {g : Graph N}
+
+theorem mem_deadInputs_iff (hn : dg.names.Nodup) (hc : dg.ConnIn) (ha : dg.rgAll.Acyclic) {p : N} :
+    p ∈ deadInputs dg ↔ dg.origIn p = true ∧ (∃ c, dg.Feeds c p) ∧ ¬ dg.Live p := by
+  have ht : ∀ u c, c ∈ capsIn dg.keptTable u ↔ dg.Feeds c u := fun u c => DG.mem_keptTable_iff hn hc ha
+  unfold deadInputs
+  simp only [List.mem_filter, Bool.and_eq_true, Bool.not_eq_true', decide_eq_false_iff_not]
+  rw [DG.mem_liveIn_iff ht hc ha]
+  have hne := DG.capsIn_nonempty_iff ht (u := p)
+  rw [Bool.not_eq_true'] at hne
+  rw [hne]
+  constructor
+  · rintro ⟨_, ⟨h1, h2⟩, h3⟩; exact ⟨h1, h2, h3⟩
+  · rintro ⟨h1, h2, h3⟩
+    refine ⟨?_, ⟨h1, h2⟩, h3⟩
+    unfold DG.origIn at h1
+    simp only [Bool.and_eq_true, decide_eq_true_eq] at h1
+    exact h1.1
+
+theorem hasLiveInput_iff (hn : dg.names.Nodup) (hc : dg.ConnIn) (ha : dg.rgAll.Acyclic) :
+    hasLiveInput dg = true ↔ ∃ u, dg.origIn u = true ∧ dg.Live u := by
+  unfold hasLiveInput
+  simp only [List.any_eq_true, Bool.and_eq_true, decide_eq_true_eq, DG.mem_liveUnits_iff hn hc ha]
+  constructor
+  · rintro ⟨u, _, h1, h2⟩; exact ⟨u, h1, h2⟩
+  · rintro ⟨u, h1, h2⟩
+    refine ⟨u, ?_, h1, h2⟩
+    unfold DG.origIn at h1
+    simp only [Bool.and_eq_true, decide_eq_true_eq] at h1
+    exact h1.1
+
+end Tables
+
 end LoaderDefects
 end Loader
 end ProcSim
